@@ -41,9 +41,9 @@ CLAIMS = {
         text="Deductive proof for the p2pkeswarm glue: both AcceptKey closures the swarm builds consult the whitelist (and, for outbound channels, the requested identity) before returning true; "
              "handleMessage attributes a delivered message to the fingerprint of the key returned by its channel's RemoteKey, with the transport source address and exactly the plaintext the channel returned; "
              "getFullAddr returns a channel only after the fingerprint of its authenticated key equals the requested identity. Together with the channel contracts of C05 (AcceptKey is consulted in both roles). "
-             "quicswarm glue: a dialled session is cached and used only after the identity of its peer certificate was compared with the requested one; an accepted session is admitted only after the whitelist accepted that identity; tells and asks are attributed to the address the session was authenticated as.",
+             "quicswarm glue: a dialled session is cached and used only after the identity of its peer certificate was compared with the requested one; an accepted session is admitted only after the whitelist accepted that identity; tells and asks are attributed to the address the session was authenticated as. sshswarm: newServer names an accepted connection (pubKey and the fingerprint of its remote address) after the key that authenticated it, not after a key that was merely offered.",
         design_ref="DESIGN.md section 5, C04 and section 10",
-        note=TRUST + "TLS (certificate verification, what remoteAddrFromSession reads) and the session cache are behind trusted contracts. sshswarm attribution is NOT covered (the PublicKeyCallback issue described in DESIGN.md section 6 is not decided by this check).",
+        note=TRUST + "TLS (certificate verification, what remoteAddrFromSession reads) and the session cache are behind trusted contracts. sshswarm: only the server side (newServer) is under contract, against a model of ssh.NewServerConn (callback invoked for two arbitrary offered keys in either order, connection carries the Permissions of the one that authenticated); the client side relies on HostKeyCallback comparing the fingerprint and is not under contract.",
     ),
     "C05": dict(
         category="proof",
@@ -102,9 +102,10 @@ CLAIMS = {
     "C12": dict(
         category="proof",
         text="Deductive proof of: closed => stored error non-nil (both hubs, also for Close() without a reason); every blocking select in TellHub.Receive/Deliver and AskHub.ServeAsk/Deliver has a receive case on the hub's closed channel (wake-on-close obligation per select); "
-             "Receive/ServeAsk called on a closed hub return a non-nil error; the bounded queue's Receive has the same wake obligations.",
+             "Receive/ServeAsk called on a closed hub return a non-nil error; the bounded queue's Receive has the same wake obligations. multiswarm: Close closes the tell hub and, for a swarm built by NewSecureAsk, the ask hub, "
+             "whatever the inner swarms' Close calls return, and NewSecureAsk hands the composite the multiSwarm that references its asker.",
         design_ref="DESIGN.md section 5, C12 and section 10",
-        note=TRUST + "'No callback after Close returned', goroutine release and the Close methods of the composite swarms are not decided.",
+        note=TRUST + "'No callback after Close returned', goroutine release and the Close methods of the other composite swarms (everything but multiswarm) are not decided.",
     ),
     "C13": dict(
         category="proof",
@@ -140,7 +141,7 @@ CLAIMS = {
     "C18": dict(
         category="proof",
         text="Deductive proof of the kademlia Cache as a bounded map over an abstract view: bucket get/put/delete/expire/evict/update and Cache.bucketIndex/Get/Delete/evict/Expire/Update keep count == sum of bucket sizes <= max, locus never stored, "
-             "Get after Put returns the stored entry, Delete/Expire remove only what they should, and eviction removes from the farthest non-empty bucket.",
+             "Get after Put returns the stored entry, Delete/Expire remove only what they should, Expire leaves no expired entry in any bucket whose earliest-expiry shortcut has passed (every bucket is considered), and eviction removes from the farthest non-empty bucket.",
         design_ref="DESIGN.md section 5, C18",
         note=TRUST + "Map model (domain/value/cardinality arrays, range yields each key once) and time.Time as an integer instant are assumptions. Some quantified postconditions of Cache.Update are unclaimed.",
     ),
